@@ -15,7 +15,13 @@
 //   trace  : the file system calls the operation made, in order, e.g.
 //            creat:B/2e74656d70/*:ok;write:5:ok;close:ok;lstat:B/6465/616263646566:enoent;rename:...
 //   verify : init=<r>;<listing>;<keyhex>=<absent|b:hex|e:errno>...;put=<r>;get=<r>
+//   op putc<n> = Put under a context whose Err() reports cancellation from its (n+1)-th call on (n >= 1:
+//            PutStream's own check has passed; the tree under test does not look at the context again, so
+//            the put completes — a Put that does look must still publish nothing or everything)
 // Concurrency records: id, config, "conc", writers, keys, rounds, "-", observation = readers_ok | <what was seen>
+// Two-store records:   id, config, "two", variant, "-", "-", "-", observation = two_ok | <what was seen>:
+//            two Store values on ONE directory with streams open at the same time (another process
+//            sharing the directory looks the same to the file system)
 package main
 
 import (
@@ -56,6 +62,20 @@ func splitChunks(s string) [][]byte {
 	return out
 }
 
+// cancelAfter is a context that starts to report cancellation after n calls of Err.
+type cancelAfter struct {
+	context.Context
+	calls, n int
+}
+
+func (c *cancelAfter) Err() error {
+	c.calls++
+	if c.calls > c.n {
+		return context.Canceled
+	}
+	return nil
+}
+
 func resTok(err error) string {
 	if err == nil {
 		return "ok"
@@ -73,6 +93,15 @@ func helper(args []string) {
 	}
 	os.Lstat("/c18-marker-begin")
 	var res error
+	switch {
+	case strings.HasPrefix(op, "putc"):
+		var c []byte
+		if len(chunks) > 0 {
+			c = chunks[0]
+		}
+		n, _ := strconv.Atoi(op[4:])
+		res = st.Put(&cancelAfter{Context: ctx, n: n}, key, c)
+	}
 	switch op {
 	case "put":
 		var c []byte
@@ -292,7 +321,8 @@ func traceText(evs []sysEv) string {
 const traceSet = "trace=openat,write,close,renameat,renameat2,mkdirat,unlinkat,newfstatat"
 
 type scenario struct {
-	shard  string
+	noFaults bool // only the fault-free run
+	shard    string
 	pre    [][2]string // key, content (stored by the harness itself before the traced operation)
 	op     string
 	key    string
@@ -443,7 +473,109 @@ func scenarios(tier string, n int) []*scenario {
 	if n > 0 && n < len(out) {
 		out = out[:n]
 	}
+	// Put under a context that is cancelled while the put is under way (fault-free runs only)
+	for _, sh := range shards {
+		for _, op := range []string{"putc1", "putc2", "putc5"} {
+			for _, c := range []string{content, big} {
+				out = append(out, &scenario{noFaults: true, shard: sh, op: op, key: "cancelled", chunks: []string{c}})
+			}
+			if tier != "thorough" {
+				break
+			}
+		}
+	}
 	return out
+}
+
+// runTwo: two Store values on one directory, their writes interleaved in one goroutine.
+func runTwo(out *lib.Out, id, config, variant string) {
+	shard := strings.Split(config, ",")[0]
+	parent, base := lib.NewSandbox("c18")
+	defer os.RemoveAll(parent)
+	obs := "two_ok"
+	err := lib.Safely(func() error {
+		st1, e1 := lib.OpenFsStore(base, shard)
+		st2, e2 := lib.OpenFsStore(base, shard)
+		if e1 != nil || e2 != nil {
+			return fmt.Errorf("init")
+		}
+		a := []byte(strings.Repeat("AAAAaaaa", 40))
+		b := []byte(strings.Repeat("Bb", 300))
+		ka, kb := "twokey-a", "twokey-b"
+		if variant == "samekey" {
+			kb = ka
+		}
+		var ea, eb error
+		switch variant {
+		case "streams", "samekey":
+			w1, c1, err := st1.PutStream(ctx)
+			if err != nil {
+				return err
+			}
+			w2, c2, err := st2.PutStream(ctx)
+			if err != nil {
+				return err
+			}
+			w1.Write(a[:100])
+			w2.Write(b[:100])
+			w1.Write(a[100:])
+			w2.Write(b[100:])
+			ea = c1(ka)
+			eb = c2(kb)
+		case "put-inside-stream":
+			w2, c2, err := st2.PutStream(ctx)
+			if err != nil {
+				return err
+			}
+			w2.Write(b[:100])
+			ea = st1.Put(ctx, ka, a)
+			w2.Write(b[100:])
+			eb = c2(kb)
+		}
+		rd, _ := lib.OpenFsStore(base, shard)
+		check := func(k string, want [][]byte, acked bool) string {
+			got, err := rd.Get(ctx, k)
+			if err != nil {
+				if acked {
+					return "acked_lost"
+				}
+				return ""
+			}
+			for _, w := range want {
+				if bytes.Equal(got, w) {
+					return ""
+				}
+			}
+			return fmt.Sprintf("mixed_block:len%d", len(got))
+		}
+		var bad []string
+		if variant == "samekey" {
+			if s := check(ka, [][]byte{a, b}, ea == nil || eb == nil); s != "" {
+				bad = append(bad, s)
+			}
+		} else {
+			if s := check(ka, [][]byte{a}, ea == nil); s != "" {
+				bad = append(bad, s)
+			}
+			if s := check(kb, [][]byte{b}, eb == nil); s != "" {
+				bad = append(bad, s)
+			}
+		}
+		if ea != nil {
+			bad = append(bad, "first_writer_failed:"+lib.StoreErrClass(ea))
+		}
+		if eb != nil {
+			bad = append(bad, "second_writer_failed:"+lib.StoreErrClass(eb))
+		}
+		if len(bad) > 0 {
+			obs = strings.Join(bad, ",")
+		}
+		return nil
+	})
+	if err != nil {
+		obs = "two_error:" + lib.StoreErrClass(err)
+	}
+	out.Case(id, config, "two", variant, "-", "-", "-", obs)
 }
 
 func runConc(out *lib.Out, id, config string, writers, nkeys, rounds int) {
@@ -559,6 +691,10 @@ func main() {
 			if len(f) < 7 {
 				continue
 			}
+			if f[2] == "two" {
+				runTwo(out, f[0], f[1], f[3])
+				continue
+			}
 			if f[2] == "conc" {
 				w, _ := strconv.Atoi(f[3])
 				k, _ := strconv.Atoi(f[4])
@@ -624,6 +760,9 @@ func main() {
 	})
 	for i, sc := range scs {
 		jobs = append(jobs, &job{id: fmt.Sprintf("s%d.none", i), sc: sc, fault: "none"})
+		if sc.noFaults {
+			continue
+		}
 		evs := bases[i].evs
 		for j := range evs {
 			if evs[j].text == "" {
@@ -665,6 +804,12 @@ func main() {
 	})
 	for _, j := range jobs {
 		emit(j)
+	}
+	// two stores on one directory
+	for i, v := range []string{"streams", "samekey", "put-inside-stream"} {
+		for j, sh := range []string{"r12", "r122", "r133"} {
+			runTwo(out, fmt.Sprintf("two%d.%d", i, j), sh+",q"+quirks, v)
+		}
 	}
 	// concurrent writers and readers
 	nconc := 3
